@@ -315,6 +315,11 @@ func genC02(t *rapid.T) c02Case {
 			c.Configs[i].Verbose = true
 		}
 	}
+	if rapid.IntRange(0, 5).Draw(t, "limits") == 0 {
+		for i := 1; i < len(c.Configs); i++ {
+			c.Configs[i].Limits = true
+		}
+	}
 	return c
 }
 
